@@ -164,6 +164,21 @@ func forgeAlphabet(cfg histCfg, w *World) []histAnswer {
 		}
 		return nil
 	}))
+	// an IPMI v1.5 session wrapper (authentication type none) around the forged
+	// message: nothing in it is authenticated
+	for _, which := range []string{"console-id", "bmc-id", "zero"} {
+		which := which
+		a = append(a, forgeAns("forged/v15-wrapper-unauthenticated-"+which, false, func(t *env.Transport, rx *ref.Rx, s *ref.Session) []byte {
+			id := map[string]uint32{"console-id": s.HS.SIDM, "bmc-id": s.HS.SIDC, "zero": 0}[which]
+			s.OutSeq++
+			msg := forgedMsg(rx)
+			d := []byte{0x06, 0x00, 0xFF, 0x07, 0x00}
+			d = append(d, le32b(s.OutSeq)...)
+			d = append(d, le32b(id)...)
+			d = append(d, byte(len(msg)))
+			return append(d, msg...)
+		}))
+	}
 	// forgeries that need no key at all: authenticated flag set, payload in the
 	// clear, a well-formed trailer whose AuthCode is empty / zeros / ones of
 	// each algorithm's length
@@ -248,6 +263,30 @@ func forgeAlphabet(cfg histCfg, w *World) []histAnswer {
 		}
 		return append(b, 255)
 	})
+	// several pad bytes wrong in ways that cancel in a sum, an XOR or a count
+	for vi, deltas := range [][]byte{{0x80, 0x80}, {0x40, 0x40, 0x40, 0x40}, {0xFF, 0x01}, {0x01, 0xFF}, {0x10, 0xF0}, {0x55, 0x55, 0x56}} {
+		deltas := deltas
+		badPad(fmt.Sprintf("several-pad-bytes-wrong-%d", vi), func(m []byte) []byte {
+			b, n := padTo(m)
+			if n > 15 || n < len(deltas) {
+				return nil
+			}
+			for i, d := range deltas {
+				b[len(m)+i] += d
+			}
+			return b
+		})
+		badPad(fmt.Sprintf("several-pad-bytes-flipped-%d", vi), func(m []byte) []byte {
+			b, n := padTo(m)
+			if n > 15 || n < len(deltas) {
+				return nil
+			}
+			for i, d := range deltas {
+				b[len(b)-2-i] ^= d
+			}
+			return b
+		})
+	}
 	badPad("not-block-aligned", func(m []byte) []byte {
 		b, _ := padTo(m)
 		return append(b, 0x01, 0x02, 0x03)
@@ -362,7 +401,7 @@ func answerKind(ans []string) string {
 var c04Base = map[string]*histObs{}
 
 func c04Baseline(cfg histCfg) *histObs {
-	k := fmt.Sprintf("%v/%v/%v", cfg.Suite, cfg.Ops, cfg.Prior)
+	k := fmt.Sprintf("%v/%v/%v/%x", cfg.Suite, cfg.Ops, cfg.Prior, cfg.BMCSID)
 	if b, ok := c04Base[k]; ok {
 		return b
 	}
@@ -415,6 +454,10 @@ func runC04(r *rep.R) {
 			cfg3.Horizon = 3
 			histExploreWith(r, "C04", cfg3, 2, &idx, c04Judge)
 			if t == opGetDeviceID {
+				// the BMC numbers its sessions from 1, as the console does
+				cfgS := cfg
+				cfgS.BMCSID, cfgS.FlipLen = 1, 0
+				histExploreWith(r, "C04", cfgS, 1, &idx, c04Judge)
 				// the session under test is the second on its connection
 				cfgP := cfg
 				cfgP.Prior = true
